@@ -1,9 +1,9 @@
 SPECIFICATION Spec
 CONSTANTS
-  Design = "student_bookkeeping"
-  Kind = "printer"
+  Design = "grader_bookkeeping"
+  Kind = "catcher"
   MaxSteps = 2
-  Inject = "base"
+  Inject = "exception"
   Handback = "per_run"
   NextRun = "plain"
   defaultInitValue = defaultInitValue
@@ -13,4 +13,5 @@ INVARIANT OneRuntimeFb
 INVARIANT StacksEmpty
 INVARIANT NoCrash
 INVARIANT NextRunClean
+INVARIANT NextExcNone
 CHECK_DEADLOCK FALSE
